@@ -43,6 +43,8 @@ pub enum Op {
     Query,
     Kern(Option<u64>, KCall),
     KBlock(Option<u64>, Vec<Item>),
+    Serialize,
+    Roundtrip,
 }
 
 #[derive(Debug, Clone)]
@@ -208,6 +210,8 @@ fn op_toks(o: &Op, s: &mut String) {
         }
         Op::Obs(b) => write!(s, " 7 {}", u8::from(*b)).unwrap(),
         Op::Query => s.push_str(" 8"),
+        Op::Serialize => s.push_str(" 11"),
+        Op::Roundtrip => s.push_str(" 12"),
         Op::Kern(fa, k) => {
             write!(s, " 9 {}", fa_tok(fa)).unwrap();
             kcall_toks(k, s);
@@ -370,7 +374,7 @@ fn exec(m: &mut CMap2<f64>, o: &Op) -> Res {
                 Err(e) => Res::Err(sew_err_code(&e)),
             }
         }
-        Op::Obs(_) | Op::Query => Res::Ok(0),
+        Op::Obs(_) | Op::Query | Op::Serialize | Op::Roundtrip => Res::Ok(0),
         Op::Kern(fa, k) => {
             arm_fault(*fa);
             let r = with_watchdog(|| {
@@ -418,6 +422,161 @@ fn exec(m: &mut CMap2<f64>, o: &Op) -> Res {
     }));
     arm_fault(None);
     r.unwrap_or(Res::Panic)
+}
+
+// ------------------------------------------------------------------ cmap text (C09, C10)
+
+/// the lexical layer of the cmap format: items = headers and non-empty content lines of tokens.
+/// header: `-1 code` (0 meta 1 betas 2 unused 3 vertices 9 other); line: `-2 n tok*` with
+/// tok = `0 int` (unsigned decimal literal) | `1 f<bits>` (anything else f64 parses) | `2`
+pub fn lex(text: &str, out: &mut String) {
+    for line in text.trim().lines() {
+        let t = line.trim();
+        if t.is_empty() || t.starts_with('#') {
+            continue;
+        }
+        if t.starts_with('[') && t.contains(']') {
+            let name = t.trim_matches(['[', ']']).to_lowercase();
+            let c = match name.as_str() {
+                "meta" => 0,
+                "betas" => 1,
+                "unused" => 2,
+                "vertices" => 3,
+                _ => 9,
+            };
+            write!(out, " -1 {c}").unwrap();
+            continue;
+        }
+        let content = t.split('#').next().unwrap().trim();
+        if content.is_empty() {
+            continue;
+        }
+        let toks: Vec<&str> = content.split_whitespace().collect();
+        write!(out, " -2 {}", toks.len()).unwrap();
+        for tk in toks {
+            if !tk.is_empty() && tk.len() <= 30 && tk.bytes().all(|b| b.is_ascii_digit()) {
+                write!(out, " 0 {tk}").unwrap();
+            } else if let Ok(x) = tk.parse::<f64>() {
+                write!(out, " 1 {}", ftok(x)).unwrap();
+            } else {
+                out.push_str(" 2");
+            }
+        }
+    }
+}
+
+/// result of building a 2-map from a text: class 4 = layout rejected by the file loader
+pub fn build_from_text(text: &str, tag: &str) -> (u32, Option<CMap2<f64>>) {
+    let path = std::env::temp_dir().join(format!("hc_verif_{}_{tag}.cmap", std::process::id()));
+    std::fs::write(&path, text).unwrap();
+    let p2 = path.clone();
+    let b = catch_unwind(AssertUnwindSafe(move || honeycomb_core::cmap::CMapBuilder::<2, f64>::from_cmap_file(p2)));
+    let r = match b {
+        Err(_) => (4, None),
+        Ok(b) => match catch_unwind(AssertUnwindSafe(move || b.build())) {
+            Err(_) => (2, None),
+            Ok(Err(_)) => (1, None),
+            Ok(Ok(m)) => (0, Some(m)),
+        },
+    };
+    let _ = std::fs::remove_file(&path);
+    r
+}
+
+fn roundtrip(m: &CMap2<f64>, out: &mut String) {
+    let mut t1 = String::new();
+    m.serialize(&mut t1);
+    match build_from_text(&t1, "rt") {
+        (0, Some(m2)) => {
+            out.push_str(" 1");
+            dump2(&m2, 0, out);
+            out.push_str(" -9");
+            let mut t2 = String::new();
+            m2.serialize(&mut t2);
+            lex(&t2, out);
+            // byte-for-byte clause, decided on the implementation itself
+            if t1 != t2 && std::env::var("HC_LOUD").is_ok() {
+                eprintln!("--- first\n{t1}\n--- second\n{t2}");
+            }
+            write!(out, " -8 {}", u8::from(t1 == t2)).unwrap();
+        }
+        _ => out.push_str(" 0"),
+    }
+}
+
+fn mutate_text(r: &mut Rng, lines: &mut Vec<String>, n: u64) {
+    if lines.is_empty() {
+        return;
+    }
+    let li = r.below(lines.len() as u64) as usize;
+    // the META line only gets small counts: a huge dart count is a resource failure, not a panic
+    let meta_line = li > 0 && lines[li - 1].trim().eq_ignore_ascii_case("[meta]");
+    let pool = |r: &mut Rng| -> String {
+        if meta_line {
+            return (n + r.below(4)).saturating_sub(2).to_string();
+        }
+        match r.below(12) {
+            0 => "0".to_string(),
+            1 => n.to_string(),
+            2 => (n + 1 + r.below(3)).to_string(),
+            3 => "-1".to_string(),
+            4 => "x7".to_string(),
+            5 => "1.5".to_string(),
+            6 => "4294967296".to_string(),
+            _ => r.below(n.max(1)).to_string(),
+        }
+    };
+    match r.below(12) {
+        0..=4 => {
+            // replace one token
+            let mut t: Vec<String> = lines[li].split_whitespace().map(str::to_string).collect();
+            if !t.is_empty() {
+                let j = r.below(t.len() as u64) as usize;
+                t[j] = pool(r);
+                lines[li] = t.join(" ");
+            }
+        }
+        5 => {
+            // delete a token / add one
+            let mut t: Vec<String> = lines[li].split_whitespace().map(str::to_string).collect();
+            if !t.is_empty() && r.chance(1, 2) {
+                t.remove(r.below(t.len() as u64) as usize);
+            } else {
+                t.push(pool(r));
+            }
+            lines[li] = t.join(" ");
+        }
+        6 => {
+            // swap two tokens of a line
+            let mut t: Vec<String> = lines[li].split_whitespace().map(str::to_string).collect();
+            if t.len() >= 2 {
+                let (a, b) = (r.below(t.len() as u64) as usize, r.below(t.len() as u64) as usize);
+                t.swap(a, b);
+                lines[li] = t.join(" ");
+            }
+        }
+        7 => {
+            let l = lines[li].clone();
+            lines.insert(li, l);
+        }
+        8 => {
+            lines.remove(li);
+        }
+        9 => lines.insert(li, ["# comment", "", "   ", "[UNUSED]", "[vertices]", "[Betas]", "[other]"][r.below(7) as usize].to_string()),
+        10 => lines[li].push_str(" # trailing comment"),
+        _ => {
+            // an extra id in the UNUSED section, or an extra vertex line
+            if let Some(p) = lines.iter().position(|l| l.trim() == "[UNUSED]") {
+                if p + 1 < lines.len() {
+                    let extra = pool(r);
+                    lines[p + 1] = format!("{} {extra}", lines[p + 1]);
+                }
+            }
+            if r.chance(1, 2) {
+                lines.push(format!("{} 0.5 0.25", pool(r)));
+            }
+        }
+    }
 }
 
 // ------------------------------------------------------------------ query observation (C03)
@@ -952,6 +1111,8 @@ fn parse_ops(t: &[&str]) -> Vec<Op> {
                 i += 1;
             }
             8 => v.push(Op::Query),
+            11 => v.push(Op::Serialize),
+            12 => v.push(Op::Roundtrip),
             9 => {
                 let fa: i64 = t[i].parse().unwrap();
                 i += 1;
@@ -1012,6 +1173,12 @@ fn run_case(id: &str, mask: u32, n0: u32, ops: &mut dyn FnMut(&CMap2<f64>, usize
             write!(line, "{id} {k} {}", r.toks()).unwrap();
             if matches!(o, Op::Query) {
                 query2(&m, &mut line);
+            } else if matches!(o, Op::Serialize) {
+                let mut text = String::new();
+                m.serialize(&mut text);
+                lex(&text, &mut line);
+            } else if matches!(o, Op::Roundtrip) {
+                roundtrip(&m, &mut line);
             } else {
                 dump2(&m, mask, &mut line);
             }
@@ -1138,6 +1305,7 @@ fn main() {
     let tag = get("--tag", "r");
     let query_pct: u64 = get("--query", "0").parse().unwrap();
     let only = get("--only", "all");
+    let io_pct: u64 = get("--io", "0").parse().unwrap();
     if std::env::var("HC_LOUD").is_err() {
         quiet_panics();
     }
@@ -1168,9 +1336,15 @@ fn main() {
                                 asked = true;
                                 return Some(Op::Query);
                             }
+                            if io_pct > 0 && !asked {
+                                asked = true;
+                                return Some(Op::Roundtrip);
+                            }
                             None
                         } else if query_pct > 0 && r2.chance(query_pct, 100) {
                             Some(Op::Query)
+                        } else if io_pct > 0 && r2.chance(io_pct, 100) {
+                            Some(if r2.chance(1, 2) { Op::Serialize } else { Op::Roundtrip })
                         } else {
                             Some(gen_op(&mut r2, m, mask, w, fault))
                         }
@@ -1506,6 +1680,37 @@ fn main() {
                         }
                     }
                 }
+            }
+        }
+        "parse" => {
+            // C10: valid serializations mutated at token / line / section level, and random texts
+            // over the section grammar; the case line is the lexed text
+            let mut rng = Rng::new(seed);
+            for i in 0..ncases {
+                let n0 = 1 + rng.below(maxn) as u32;
+                let mut m = build2(n0 as usize, 0);
+                let mut r2 = Rng::new(rng.next());
+                for _ in 0..rng.below(maxops as u64 + 1) {
+                    let o = gen_op(&mut r2, &m, 0, 0, 0);
+                    exec(&mut m, &o);
+                }
+                let mut text = String::new();
+                m.serialize(&mut text);
+                let mut lines: Vec<String> = text.lines().map(str::to_string).collect();
+                let nmut = rng.below(4);
+                for _ in 0..nmut {
+                    mutate_text(&mut r2, &mut lines, m.n_darts() as u64);
+                }
+                let text = lines.join("\n") + "\n";
+                let (cls, built) = build_from_text(&text, "p");
+                let mut case = format!("{tag}{i}");
+                lex(&text, &mut case);
+                writeln!(out.cases, "{case}").unwrap();
+                let mut o = format!("{tag}{i} 0 {cls} 0 0");
+                if let Some(b) = built {
+                    dump2(&b, 0, &mut o);
+                }
+                writeln!(out.obs, "{o}").unwrap();
             }
         }
         "exhq" => {
